@@ -896,3 +896,138 @@ Proof.
     + destruct Hcases as [(R1 & -> & -> & -> & ->)|[(-> & -> & -> & [->|[R1 ->]])|(R0 & -> & -> & -> & ->)]]; auto.
       congruence.
 Qed.
+
+(* ------------------------------------------------------------------ all histories *)
+Lemma inv_init fx c a : 0 < c -> InvC (proj (init fx c a)) [].
+Proof.
+  intros Hc. constructor; cbn [proj init fixedm cap log s_alive s_closed s_taint pdrop rxs
+                                c_cap c_rxs c_closed c_alive c_pdrop c_taint c_fixed]; auto.
+  - cbn [map fst]. constructor; [intros []|constructor].
+  - intros r x Hg. unfold c_get, proj, init in Hg. cbn [c_rxs rxs get] in Hg.
+    destruct (N.eqb r 0); [|discriminate]. inversion Hg; subst x.
+    rxinv_split; unfold c_head, proj, init;
+      cbn [r_start r_cur r_reg r_closed r_live r_taint c_cap c_log c_fixed fixedm cap log length]; auto;
+      try (unfold lenN; cbn [length]; lia).
+  - intros [?|?]; discriminate.
+Qed.
+
+Lemma inv_runacc ops : forall s acc,
+  InvC (proj s) (rev acc) ->
+  InvC (proj (fst (runacc (s, acc) ops))) (rev (snd (runacc (s, acc) ops))).
+Proof.
+  induction ops as [|o t IH]; intros s acc I; [exact I|].
+  cbn [runacc fold_left]. change (fold_left stepacc t) with (fun p => runacc p t). cbn beta.
+  assert (Hst : stepacc (s, acc) o = (fst (step s o), snd (step s o) :: acc))
+    by (unfold stepacc; cbn [fst snd]; destruct (step s o); reflexivity).
+  rewrite Hst. destruct (step s o) as [s1 x] eqn:Es. cbn [fst snd].
+  apply IH. cbn [rev]. eapply inv_step; [exact I|]. apply step_shape with (op := o). exact Es.
+Qed.
+
+Theorem inv_run fx c a ops s outs :
+  0 < c -> run fx c a ops = (s, outs) -> InvC (proj s) outs.
+Proof.
+  intros Hc H. unfold run in H.
+  pose proof (inv_runacc ops (init fx c a) [] (inv_init fx c a Hc)) as I.
+  destruct (runacc (init fx c a, []) ops) as [s1 acc]. inversion H; subst. exact I.
+Qed.
+
+(* prefix runs are runs: every intermediate state of a history is itself the end of a history *)
+Lemma runacc_app ops1 ops2 p : runacc p (ops1 ++ ops2) = runacc (runacc p ops1) ops2.
+Proof. unfold runacc. apply fold_left_app. Qed.
+
+(* ---- C07: delivery *)
+Theorem spmc_delivery fx c a ops s outs r x :
+  0 < c -> run fx c a ops = (s, outs) -> get (rxs s) r = Some x -> r_taint x = false ->
+  recvd r outs = slice (log s) (r_start x) (r_cur x) /\ r_start x <= r_cur x /\ r_cur x <= head s.
+Proof.
+  intros Hc Hr Hg Ht. pose proof (inv_run _ _ _ _ _ _ Hc Hr) as I.
+  destruct (i_rx _ _ I r x Hg) as (A & B & C & D & E & F & G).
+  split; [apply F; exact Ht|]. split; assumption.
+Qed.
+
+Theorem spmc_fixed_untainted c a ops s outs :
+  0 < c -> run true c a ops = (s, outs) ->
+  s_taint s = false /\ forall r x, get (rxs s) r = Some x -> r_taint x = false.
+Proof.
+  intros Hc Hr. pose proof (inv_run _ _ _ _ _ _ Hc Hr) as I.
+  assert (Hf : fixedm s = true).
+  { clear I. unfold run in Hr. destruct (runacc (init true c a, []) ops) as [s1 acc] eqn:E.
+    inversion Hr; subst s1. clear Hr.
+    assert (forall ops p, fixedm (fst (runacc p ops)) = fixedm (fst p)) as Hk.
+    { clear. induction ops as [|o t IH]; intros p; [reflexivity|].
+      cbn [runacc fold_left]. change (fixedm (fst (runacc (stepacc p o) t)) = fixedm (fst p)).
+      rewrite IH. unfold stepacc. destruct (step (fst p) o) as [s1 x] eqn:Es. cbn [fst].
+      apply step_shape in Es. change (c_fixed (proj s1) = c_fixed (proj (fst p))).
+      destruct Es; reflexivity. }
+    specialize (Hk ops (init true c a, [])). rewrite E in Hk. exact Hk. }
+  split.
+  - apply (i_s3 _ _ I). exact Hf.
+  - intros r x Hg. destruct (i_rx _ _ I r x Hg) as (_ & _ & _ & _ & _ & _ & G). apply G. exact Hf.
+Qed.
+
+Theorem spmc_clone_position s p cid s' :
+  step s (RClone p cid) = (s', OOk) ->
+  exists xp xc, get (rxs s) p = Some xp /\ get (rxs s') cid = Some xc /\
+                r_start xc = r_cur xp /\ r_cur xc = r_cur xp /\ get (rxs s) cid = None.
+Proof.
+  cbn [step]. intros H. apply with_rx_inv in H. destruct H as [[_ H]|(x & Hg & Hl & H)]; [discriminate|].
+  destruct (get (rxs s) cid) eqn:Egc; [discriminate|].
+  destruct (fixedm s && r_closed x); pinv H; eexists; eexists; (split; [exact Hg|]);
+    cbn [set_rx set_rxs rxs]; rewrite get_set_eq; (split; [reflexivity|]); cbn [r_start r_cur]; auto.
+Qed.
+
+(* ---- C07: an unread value is never overwritten *)
+Theorem spmc_no_overwrite fx c a ops s outs r x :
+  0 < c -> run fx c a ops = (s, outs) -> get (rxs s) r = Some x ->
+  r_taint x = false -> r_closed x = false ->
+  r_reg x = true /\ r_live x = true /\ head s <= r_cur x + cap s /\
+  forall i, r_cur x <= i -> i < head s -> slot_index s i = i.
+Proof.
+  intros Hc Hr Hg Ht Hcl. pose proof (inv_run _ _ _ _ _ _ Hc Hr) as I.
+  destruct (i_rx _ _ I r x Hg) as (A & B & C & D & E & F & G).
+  assert (Hreg : r_reg x = true).
+  { destruct (r_reg x) eqn:Er; [reflexivity|]. specialize (E Ht eq_refl). congruence. }
+  destruct (D Hreg) as [Hl _]. specialize (C Ht Hreg).
+  change (c_head (proj s)) with (head s) in *. change (c_cap (proj s)) with (cap s) in *.
+  split; [exact Hreg|]. split; [exact Hl|]. split; [exact C|].
+  change (c_head (proj s)) with (head s) in *. change (c_cap (proj s)) with (cap s) in *.
+  intros i H1 H2. apply (slot_index_window (proj s));
+    change (c_head (proj s)) with (head s); change (c_cap (proj s)) with (cap s); lia.
+Qed.
+
+(* ---- C07: the sender is held back by the slowest registered receiver; exactness of try_send *)
+Theorem spmc_try_send_exact s v :
+  s_alive s = true -> s_closed s = false ->
+  match minl (cursors s) with
+  | None => step s (TrySend v) = (add_drops s [v], OClosedV v)
+  | Some m =>
+      if N.ltb (head s - m) (cap s)
+      then snd (step s (TrySend v)) = OOk /\ log (fst (step s (TrySend v))) = log s ++ [v]
+      else step s (TrySend v) = (add_drops s [v], OFull v)
+  end.
+Proof.
+  intros Ha Hc. cbn [step]. rewrite Ha, Hc. cbn [negb]. unfold try_send_core.
+  destruct (minl (cursors s)) as [m|]; [|reflexivity].
+  destruct (N.ltb_spec (head s - m) (cap s)) as [Hlt|Hge].
+  - destruct (N.leb_spec (cap s) (head s - m)); [lia|]. split; [reflexivity|].
+    cbn [fst]. change (c_log (proj (write1 v s)) = log s ++ [v]). rewrite proj_write1. reflexivity.
+  - destruct (N.leb_spec (cap s) (head s - m)); [reflexivity|lia].
+Qed.
+
+Theorem spmc_send_ok_means_space s op s' o vs :
+  step s op = (s', o) -> log s' = log s ++ vs -> vs <> [] ->
+  exists m, minl (cursors s) = Some m /\ head s + lenN vs - m <= cap s /\
+            s_alive s = true /\ s_closed s = false.
+Proof.
+  intros Hs Hl Hne. apply step_shape in Hs.
+  assert (Hlog : c_log (proj s') = c_log (proj s) ++ vs) by exact Hl.
+  destruct Hs as [Hq|vs0 sp Hq Hsp Hle Ha Hc|r x k Hg Hcl Hk Hv Ho|r x x' Hq Hg Hl0 Hu|r x cid xc Hq Hg Hl0 Hn Hk|al cl t pd Hq Hk];
+    cbn [with_log with_rxs with_sender c_log] in Hlog.
+  1,3,4,5,6: (rewrite <- (app_nil_r (c_log (proj s))) in Hlog at 1; apply app_inv_head in Hlog; congruence).
+  apply app_inv_head in Hlog. subst vs0.
+  unfold c_space in Hsp. change (c_cursors (proj s)) with (cursors s) in Hsp.
+  destruct (minl (cursors s)) as [m|] eqn:Em; [|discriminate]. inversion Hsp; subst sp.
+  exists m. split; [reflexivity|]. change (c_head (proj s)) with (head s) in Hle. cbn [c_cap proj] in Hle.
+  split; [|split; assumption].
+  assert (lenN vs <> 0) by (unfold lenN; destruct vs; [congruence|cbn [length]; lia]). lia.
+Qed.
